@@ -5,7 +5,8 @@ import DdsModel.Eval
 
 * `export_no_effect`: requesting the graph changes neither the result, nor the store, nor the signatures;
 * `nodes_complete`: every kept path of the interaction tree is a node of the graph;
-* `solid_sources_are_heads`: the solid edges into a kept call are exactly its visible kept sub-nodes.
+* `solid_sources_are_heads`: the solid edges into a kept call are exactly its visible kept sub-nodes;
+* `dashed_sources_are_loads`: the dashed edges into a kept call are exactly the paths it loads.
 The Lean `graphOf` is the *specification* of the graph (what the property states); `_plotting._structure`
 is compared with it on every generated pipeline (nodes, solid and dashed edges exactly; dotted edges only
 constrained; acyclicity checked on the exported graph). PARTIAL: acyclicity and the exact edge
@@ -100,6 +101,21 @@ theorem solid_sources_are_heads (g : Graph) (n : String) (s : Sg) (v : String) (
     (u : String) :
     (u, v) ∈ (graphAcc g (.mk n s (some v) subs loads)).solid ↔
       (u, v) ∈ (graphAccL g subs).solid ∨ u ∈ headsL subs := by
+  simp only [graphAcc, mem_addAll, mem_map, Prod.mk.injEq]
+  constructor
+  · rintro (h | ⟨a, ha, h1⟩)
+    · exact Or.inl h
+    · simp at h1; subst h1; exact Or.inr ha
+  · rintro (h | h)
+    · exact Or.inl h
+    · exact Or.inr ⟨u, h, by simp⟩
+
+/-- the dashed edges into a kept call come from exactly the paths it loads (whether or not the same path is
+also a solid source: since the `fix:` commit for loads of a direct dependency both edges are shown) -/
+theorem dashed_sources_are_loads (g : Graph) (n : String) (s : Sg) (v : String) (subs : List FIS) (loads : List String)
+    (u : String) :
+    (u, v) ∈ (graphAcc g (.mk n s (some v) subs loads)).dashed ↔
+      (u, v) ∈ (graphAccL g subs).dashed ∨ u ∈ loads := by
   simp only [graphAcc, mem_addAll, mem_map, Prod.mk.injEq]
   constructor
   · rintro (h | ⟨a, ha, h1⟩)
